@@ -109,3 +109,20 @@ fn c17_same_k4() { check_same::<4>() }
 #[kani::proof]
 #[kani::unwind(10)]
 fn c17_same_k7() { check_same::<7>() }
+
+#[kani::proof]
+#[kani::unwind(10)]
+fn dbg_const_threshold() {
+    let c = committee_of(&[1, 1, 1, 1]);
+    let q = c.quorum_threshold();
+    let mut i = 0u32;
+    while i < q {
+        i += 1;
+    }
+    let s = c.stake(&key(0));
+    let mut j = 0u32;
+    while j < s + 5 {
+        j += 1;
+    }
+    std::mem::forget(c);
+}
